@@ -21,15 +21,23 @@ class Timeout(Exception):
 
 @contextlib.contextmanager
 def time_limit(sec):
+    """Non-termination alarm. The limit is on the CPU time the process itself consumes (ITIMER_PROF), so a busy machine
+    that leaves the process waiting for a core cannot make a terminating run look like a loop (this happened once in a
+    thorough run under load 100: a three-ballot TopTwo election "did not finish in 10 s" of wall-clock time); a loop
+    burns CPU and still trips it. A wall-clock backstop 60 times longer catches a run that blocks without computing."""
     def h(sig, frm):
         raise Timeout()
-    old = signal.signal(signal.SIGALRM, h)
-    signal.alarm(sec)
+    old_p = signal.signal(signal.SIGPROF, h)
+    old_a = signal.signal(signal.SIGALRM, h)
+    signal.setitimer(signal.ITIMER_PROF, sec)
+    signal.alarm(sec * 60)
     try:
         yield
     finally:
+        signal.setitimer(signal.ITIMER_PROF, 0)
         signal.alarm(0)
-        signal.signal(signal.SIGALRM, old)
+        signal.signal(signal.SIGPROF, old_p)
+        signal.signal(signal.SIGALRM, old_a)
 
 
 class RandLog:
@@ -42,8 +50,15 @@ class RandLog:
     @contextlib.contextmanager
     def recording(self):
         o_sample, o_choices, o_uniform = random.sample, random.choices, random.uniform
+        o_choice = random.choice
         o_npchoice, o_npshuffle = np.random.choice, np.random.shuffle
         log = self
+
+        def choice(population):
+            # a uniform pick is a weighted pick without weights: recorded as such, so that a rule may use either
+            res = o_choice(population)
+            log.calls.append(("choices", list(population), None, [res]))
+            return res
 
         def sample(population, k, **kw):
             res = o_sample(population, k, **kw)
@@ -70,11 +85,13 @@ class RandLog:
             log.calls.append(("npshuffle", list(x)))
 
         random.sample, random.choices, random.uniform = sample, choices, uniform
+        random.choice = choice
         np.random.choice, np.random.shuffle = npchoice, npshuffle
         try:
             yield self
         finally:
             random.sample, random.choices, random.uniform = o_sample, o_choices, o_uniform
+            random.choice = o_choice
             np.random.choice, np.random.shuffle = o_npchoice, o_npshuffle
 
 
